@@ -88,6 +88,7 @@ package jsonrpc
 //@ global-forbid at mapdel var:readers: assert a-rendezvous-entry-is-never-removed-while-a-peer-may-wait-on-it: false [C20]
 //@ global-forbid at call (*encoding/json.Decoder).UseNumber: assert arguments-decode-with-encoding-jsons-default-number-type: false [C01,C12]
 //@ global-forbid at call (*encoding/json.Decoder).DisallowUnknownFields: assert arguments-decode-with-encoding-jsons-default-strictness: false [C01,C12]
+//@ global-forbid at call (*lazyWriter).Write: assert only-the-reply-encoder-writes-to-the-connection-writer-so-no-empty-or-partial-message-is-flushed: false [C14,C09]
 //@ global-forbid at store net/http.Transport.ResponseHeaderTimeout: assert the-default-http-client-sets-no-deadline-of-its-own-on-calls: false [C06,C03]
 //@ global-forbid at store net/http.Client.Timeout: assert the-default-http-client-sets-no-deadline-of-its-own-on-calls: false [C06,C03]
 //@ global-forbid at call (*go.uber.org/zap.SugaredLogger).Errorw: assert the-raw-panic-payload-is-only-handed-to-the-formatter: !infunc("doCall$1") [C13]
@@ -181,6 +182,9 @@ package jsonrpc
 //@   at mapset wsConn.inflight: set registered = true
 //@   at mapset wsConn.inflight: assert registers-this-request-under-its-id: $key == req.req.ID && $val == req && req.req.ID != nil [C02,C03]
 //@   at mapset wsConn.inflight: assert not-registered-on-a-dead-link: !hasErr && heldclass("wsConn.writeLk") [C03]
+//@   ghost flagSeen : Bool = false
+//@   at call (*sync.Mutex).Unlock: set flagSeen = (fieldof($0) == "wsConn.errLk" && c.incomingErr != nil) || (fieldof($0) != "wsConn.errLk" && flagSeen)
+//@   at mapset wsConn.inflight: assert the-fail-fast-test-is-the-link-flag-itself-whatever-the-fault: !flagSeen [C03,C05]
 //@   at call sendRequest: assert registered-before-written: req.req.ID != nil ==> registered [C02,C03]
 //@   at call sendRequest: assert sends-the-dequeued-request: $1 == req.req && calls(sendRequest) >= 0 [C02,C04]
 //@   at send req.ready: assert local-completion-shape: (req.req.ID != nil ==> $val.Error != nil && $val.Error.Code == -1111111 && $val.ID == req.req.ID && !registered && defined(hasErr) && hasErr) && (req.req.ID == nil ==> $val.ID == nil && $val.Result == nil && (($val.Error != nil) == (sendErr != nil))) [C03,C04]
